@@ -199,6 +199,32 @@ def gen_release_rounds(rng, rounds=None):
     return "scn udp %d %s" % (bw, " ".join(ops))
 
 
+def stream_family(rng=None):
+    """Stream transport.  (a) Block-wise negotiated by the peer's first CSM; a response is transferred in two blocks and the peer
+    sends a further CSM (Max-Message-Size only) between them: the caller must still get the whole body, once.  (b) Answers to
+    concurrently outstanding requests written back to back in one write, the first ones long (more than four read buffers, not
+    a multiple): every caller gets its own answer."""
+    out = []
+    toks = ["aa", "c0030a01", "0102030405060708"] if rng is None else [rand_token(rng) for _ in range(3)]
+    a, b, c = toks
+    if len({a, b, c}) < 3:
+        return out
+    out += [
+        "scn tcp 1 do:1:%s:con blkc:%s:0:0:first-and-second settle" % (a, a),
+        "scn tcp 1 do:1:%s:con do:2:%s:con blkc:%s:0:0:for-two peer:resp:%s:0:for-one settle" % (a, b, b, a),
+        "scn tcp 1 do:1:%s:con do:2:%s:con blkc:%s:0:0:for-one blkc:%s:0:0:for-two do:3:%s:con blk:%s:0:0:for-three settle" % (a, b, a, b, c, c),
+        "scn tcp 1 do:1:%s:con blkc:%s:0:0:for-one do:2:%s:con blkc:%s:0:0:again-for-the-same-token settle" % (a, a, a, a),
+    ]
+    sizes = [9000, 8193, 12289, 20000] if rng is None else [rng.choice([8193, 8500, 9000, 10000, 12289, 16385, 20000, 30000]) for _ in range(3)]
+    for n in sizes:
+        out += [
+            "scn tcp 0 do:1:%s:con do:2:%s:con do:3:%s:con pipe:%s=big*%d,%s=two,%s=three settle" % (a, b, c, a, n, b, c),
+            "scn tcp 0 do:1:%s:con do:2:%s:con do:3:%s:con pipe:%s=two,%s=big*%d,%s=three settle" % (a, b, c, b, a, n, c),
+            "scn tcp 0 do:1:%s:con do:2:%s:con pipe:%s=big*%d,%s=large*%d do:3:%s:con pipe:%s=z*%d settle" % (a, b, a, n, b, n + 777, c, c, n),
+        ]
+    return out
+
+
 def gen_scenario(rng, racy=False, collide=False, siblings=False):
     tr = rng.choice(["udp", "udp", "tcp"])
     bw = rng.choice([0, 0, 1])
@@ -424,6 +450,10 @@ def gen_lines(ctx):
         L += retransmit_templates(rand_token(rng), 10 + n, rand_token(rng))
     for _ in range(3000 if thorough else 400):
         L.append(gen_reuse(rng))
+    # stream transport: a CSM between two blocks; long pipelined answers
+    L += stream_family()
+    for _ in range(40 if thorough else 4):
+        L += stream_family(rng)
     # early release + delayed ACK of separate confirmable responses, a few dozen rounds per connection
     for _ in range(400 if thorough else 60):
         L.append(gen_release_rounds(rng))
